@@ -409,6 +409,10 @@ def r6(prog, rep):
             blk = n
     if blk is None:
         raise AnalysisError("extrapolate_profiles block not found")
+    # the direction flag the block branches on: psi increases from the axis to the edge of the profile grid
+    pi_def = [s for s in walk_own(init.node) if isinstance(s, ast.Assign) and is_self_attr(s.targets[0], "psi_increasing")]
+    ok = len(pi_def) == 1 and mod.code(pi_def[0].value) in (K("psi1D[-1] > psi1D[0]"), K("psi1D[0] < psi1D[-1]"))
+    rep.ob("R6", "psi_increasing is defined as psi1D[-1] > psi1D[0]", ok, init.site(pi_def[0]) if pi_def else init.site(), mod.code(pi_def[0].value) if pi_def else "", key="extrap/psi_increasing")
     # definite assignment inside the block
     und = [(n, nm) for n, nm in possibly_undefined(init.node) if blk.lineno <= n.lineno <= blk.end_lineno]
     rep.ob("R6", "every name used in the profile-extrapolation block is assigned on every path reaching the use", not und, init.site(blk),
